@@ -71,7 +71,7 @@ def run(ctx) -> None:
     RP = ctx.rule("C08/placed-exactly-once", "on every path of the grouping loop the current record is placed in the output exactly once: alone, or as second half of a pair whose first half is replaced in place at its index or pulled out of the delay queue", floor=4)
     RQ = ctx.rule("C08/put-exactly-once", "every grouped element reaches exactly one put on the delay queue, except watch-removed markers; the delay flag is true exactly for a non-tuple MOVED_FROM", floor=4)
     RM = ctx.rule("C08/partner-predicate", "the predicate handed to the queue search accepts exactly a non-tuple MOVED_FROM whose cookie equals the current record's (the in-batch search is decided per path under placed-exactly-once)", floor=1)
-    RV = ctx.rule("C08/partner-removal-is-final", "an element pulled out of the delay queue by remove() is never also returned by get(): get() re-validates the head by identity under the lock before popping; remove() deletes under the lock (instances shared with C17)", floor=2)
+    RV = ctx.rule("C08/partner-removal-is-final", "an element pulled out of the delay queue by remove() is never also returned by get(): get() re-validates the head by identity under the lock before popping; remove() deletes under the lock, in the critical section in which it found the element in the live deque (instances shared with C17)", floor=2)
     RO = ctx.rule("C08/order", "grouping and hand-over iterate their inputs in order and append at the end", floor=2)
 
     cfg = BufCfg(P, follow_attrs=False, no_inline={"read_events", "put", "remove", "should_keep_running", "_group_events", "debug"})
@@ -361,11 +361,17 @@ def run(ctx) -> None:
     okl = True
     ndel = 0
     for e, held, p in walk_with_locks(Enumerator(QCfg(P)).run(rm), lambda t: al.get(t, t)):
-        if e.kind == "del" and e.extra.get("container") == "self._queue":
+        if (e.kind == "del" and e.extra.get("container") == "self._queue") or (e.kind == "call" and e.extra.get("func") == "self._queue.remove"):
             ndel += 1
             if held.get("self._lock", 0) <= 0:
                 okl = False
     ctx.check(okl and ndel > 0, RV, "DelayedQueue.remove deletes under the lock", "remove() does not delete the partner under the queue lock", rm.loc)
+    # ... and in the critical section in which it was found in the live deque: between a search and a later deletion get() may
+    # hand the first half out alone, and the pair built from remove()'s result delivers it a second time
+    from .c17 import search_and_delete_atomic
+
+    en17 = Enumerator(QCfg(P))
+    search_and_delete_atomic(ctx, RV, {m: en17.run(fi, selfcls="DelayedQueue") for m, fi in qci.methods.items() if m != "__init__"}, qci)
     ctx.assumptions += ["tuples are only built by _group_events (checked: C08/placed-exactly-once)", "DelayedQueue semantics: C17"]
 
 
